@@ -9,7 +9,9 @@ Deterministic part (per case, cheap):
      leapfrog image of the start (independent NumPy leapfrog), Delta H from an independent
      Hamiltonian, the uniform draw from the same key: accepted == (u < min(1, e^{Delta H})),
      accepted state = proposal or start, diverging flag;
- (d) NUTS tree structure from the module's own debug recorder (``hmc._DEBUG_FLAG``): every
+ (d) NUTS tree structure from the module's own debug recorder (``hmc._DEBUG_FLAG``), with the tree
+     builder run un-jitted under NIFTy's Python-control-flow switch (the recorder's 'finished'
+     markers carry no data dependence and are not ordered under XLA): every
      recorded state continues one contiguous leapfrog orbit through the start, sub-tree k has at
      most 2^k states and exactly 2^k if it was merged, the returned tree spans 2^depth states, its
      end points are the orbit ends, the selected state is a member of the merged orbit and the
@@ -45,8 +47,13 @@ META = dict(
                  "accept replay relies on jax.random.bernoulli(key, p) == (jax.random.uniform(key) < p)",
                  "statistical clauses bound the deviation from invariance (7 sigma, N = 5e4 per configuration), "
                  "they do not establish it",
-                 "the compiled code runs with XLA's default CPU pipeline; the NUTS recorder needs the io_callbacks "
-                 "of one tree to arrive in program order (violations of order would show up as non-contiguity)"],
+                 "the NUTS structure clause runs generate_nuts_tree un-jitted with nifty.re.lax."
+                 "_DISABLE_CONTROL_FLOW_PRIM=True (same tree-building code, Python loops) because the module's "
+                 "recorder markers are unordered under XLA; the compiled tree builder is covered by the "
+                 "stationarity clause only",
+                 "the bound 'trajectory <= 2^max_tree_depth states' of the docstring is not asserted (observed: "
+                 "trees reach depth max_tree_depth+1); U-turn flags are not re-derived (any symmetric criterion "
+                 "keeps the kernel valid; the statistical clause covers the selection probabilities)"],
     need=["reversibility_checks", "symplecticity_checks", "accept_replays", "nuts_trees",
           "nuts_states_recorded", "stationarity_configs", "stationarity_comparisons"],
     quick=dict(cases=150, workers=8, budget_s=90),
